@@ -42,6 +42,7 @@ From ASModel Require Import Base State Orderings_gen Step Run Progress Hist Inv 
 From ASModel Require Import GenDefs Gen1 Gen2 Gen EnvDefs Env4 Env AccDefs Acc1 Acc2 Acc3 Acc4 Acc5 Acc6 Acc7 Acc.
 From ASModel Require Import ProtDefs Prot1 Prot11 Prot16 Prot Typed LinDefs Lin2 Lin Safe1 Safe2 Safe7 Safe8 Safe Main RunOKEx.
 From ASModel Require Import WrpDefs WrpGen WrpEnv WrpMain WrpLin WrpEx WrpC03.
+From ASModel Require Import Stale2 Stale2P.
 
 Theorem C13_total :
   forall cf inits progs sched te e,
@@ -173,3 +174,21 @@ Print Assumptions C13_wrap_no_use_after_free.
 Print Assumptions C13_wrap_accounting.
 Print Assumptions C13_wrap_load_linearizable.
 Print Assumptions C13_wrap_scope_inhabited.
+
+(** ** With the four weakened loads of [Stale2.step_stale2]: still no panic in any run, from every
+    initial configuration, for all programs and schedules - whatever values the stale loads return
+    (the only condition, [Stale2Sched], is that a stale head is an OLDER head; the first read of the
+    fast path may even be null or garbage: no debug assertion looks at it). *)
+Theorem C13_total_stale2 : forall cf inits progs sched,
+  Stale2Sched cf (init_state inits progs) sched ->
+  forall te, In te (snd (run_stale2 cf (init_state inits progs) sched)) ->
+  forall ps, ~ In (EvPanic ps) (snd te).
+Proof. exact Stale2P2.C13_total_stale2. Qed.
+
+Theorem C13_after_wrap_stale2 : forall cf inits progs sched,
+  Stale2Sched cf (init_state inits progs) sched ->
+  WF2 (run_state_stale2 cf (init_state inits progs) sched).
+Proof. exact run_stale2_WF2. Qed.
+
+Print Assumptions C13_total_stale2.
+Print Assumptions C13_after_wrap_stale2.
